@@ -57,7 +57,7 @@ type invEntity struct {
 func loadLight(repoDir string) ([]*packages.Package, error) {
 	env := append(os.Environ(), "GOFLAGS=-mod=mod", "GOPROXY=off", "GOSUMDB=off", "GOWORK=off", "GOTOOLCHAIN=local")
 	cfg := &packages.Config{Mode: packages.NeedName | packages.NeedFiles | packages.NeedCompiledGoFiles | packages.NeedImports | packages.NeedDeps | packages.NeedTypes | packages.NeedSyntax | packages.NeedTypesInfo | packages.NeedTypesSizes,
-		Dir: repoDir, Env: env, Tests: false, Overlay: SwitchOverlay(repoDir)}
+		Dir: repoDir, Env: env, Tests: false} // no overlay: the name-aligned copy is written from positions in the files as they are on disk
 	for {
 		pkgs, err := packages.Load(cfg, "./...")
 		if err != nil {
